@@ -1,4 +1,5 @@
 import Model.Render.Ops
+import Model.Render.Eval
 /-!
 # What rendered migration code has to satisfy
 
@@ -101,20 +102,30 @@ def opOk : Op → Bool
 
 def ctxOk (c : Ctx) : Bool := c.opPrefix.all wordChar && c.saPrefix.all wordChar
 
-def optPlain : Option Str → Bool
-  | some s => plainStr s
-  | none => true
+/-! ## hypotheses of the evaluation round trip (decidable) -/
 
-/-- the extra hypothesis of the partial theorems (F8): outside batch mode, the table name and the
-schema of a table-comment operation contain no quote, backslash, line break or NUL -/
-def plainOk (c : Ctx) : Op → Bool
-  | .createTableComment t _ _ s => c.batch || (plainStr t && optPlain s)
-  | .dropTableComment t _ s => c.batch || (plainStr t && optPlain s)
+/-- no extra (dialect) keyword argument uses a name the directive itself binds -/
+def kwFresh (kn : List Str) (l : Kw) : Bool := l.all fun p => !kn.contains p.1
+
+def notStr : PyAst → Bool
+  | .str _ => false
   | _ => true
 
-def isComment : Op → Bool
-  | .createTableComment _ _ _ _ => true
-  | .dropTableComment _ _ _ => true
-  | _ => false
+/-- * dialect keyword arguments do not shadow the directive's own parameters;
+* an index *expression* is not a bare string literal (it would be read back as a column name);
+* a rendered server default is not the literal `None`;
+* `create_table` (column and constraint lists) is outside `evalCall`. -/
+def evalOk : Op → Bool
+  | .createTable _ _ _ _ _ _ _ => false
+  | .addColumn _ _ col => kwFresh colKnown col.kwargs
+  | .alterColumn a => match a.serverDefault with
+    | some (some d) => !isPyNone d
+    | _ => true
+  | .createIndex _ _ _ elems _ kws _ =>
+    elems.all (fun e => match e with | .col _ => true | .expr e => notStr e) &&
+      kwFresh [S "unique", S "schema", S "if_not_exists"] kws
+  | .dropIndex _ _ _ kws _ => kwFresh [S "table_name", S "schema", S "if_exists"] kws
+  | .createUnique _ _ _ _ _ _ kws => kwFresh [S "deferrable", S "initially", S "schema"] kws
+  | _ => true
 
 end Spec.Render
